@@ -134,6 +134,7 @@ type State struct {
 	MergeResult Value
 	Steps0      int
 	ClockLast *smt.Term
+	ClockFrozen bool // time.Now() returns the previous reading (harness primitive vclockFreeze)
 }
 
 func (st *State) top() *Frame { return st.Frames[len(st.Frames)-1] }
